@@ -742,6 +742,32 @@ impl<'ast, 'r, 'a> Visit<'ast> for Collector<'r, 'a> {
                 self.rw.log.push(format!("R13 binary_search_by closure hoisted as {key}"));
                 self.edits.push(Edit { range: rng(e), text: format!("{{ let __bs_f = {sig}{hdr} {body}; {bs} __binary_search_by({recv}, __bs_f) }}"), prio: 0 });
             }
+            // R32: CELL.get_or_init(|| E)  ->  CELL.get_or_init(|| -> (r: T) ensures .. { E })
+            // the parameterless closure gets the typed header and ensures clause given in the unit
+            // (`@loop R32#k`, `@closure_sig`, `@loop_ensures`); its body is unchanged
+            syn::Expr::MethodCall(m) if m.method == "get_or_init" && self.rw.on("R32") && m.args.len() == 1 => {
+                let cl = match &m.args[0] {
+                    syn::Expr::Closure(c) if c.inputs.is_empty() && c.capture.is_none() => c,
+                    _ => die("unsupported", &format!("{}: R32 side condition: argument of get_or_init is not a parameterless non-move closure", self.rw.fn_path)),
+                };
+                // side condition (whole source file): this is the only place that initialises a cell
+                // -- one `get_or_init`, no `.set(` / `.take(` / `.get_mut(` / `.into_inner(` on a OnceCell --
+                // so every value the cell can hold was produced by this closure
+                let whole = self.rw.src;
+                if whole.matches("get_or_init").count() != 1 || [".set(", ".take(", ".get_mut(", ".into_inner("].iter().any(|m| whole.contains(&format!("_cache{m}"))) {
+                    die("unsupported", &format!("{}: R32 side condition: the cell is initialised or reset at more than one place", self.rw.fn_path));
+                }
+                let key = self.rw.next_key("R32");
+                let sig = match self.rw.loops.iter().find(|l| l.key == key).and_then(|l| l.closure_sig.clone()) {
+                    Some(s) => s,
+                    None => die("malformed-unit", &format!("{}: R32 needs `@loop {key}` with a @closure_sig", self.rw.fn_path)),
+                };
+                let (_iter, hdr, _bs, _be) = self.rw.loop_parts(&key);
+                let recv = self.render(&m.receiver);
+                let body = self.render(&cl.body);
+                self.rw.log.push(format!("R32 get_or_init closure annotated as {key}"));
+                self.edits.push(Edit { range: rng(e), text: format!("{recv}.get_or_init({sig}{hdr} {{ {body} }})"), prio: 0 });
+            }
             // R14: expression-level `ITER.map(|p| B).collect()` into a boxed slice (error payloads)
             //   -> __collect_boxed({ let mut __v = Vec::new(); for p in ITER { __v.push(B); } __v })
             syn::Expr::MethodCall(m)
